@@ -256,14 +256,140 @@ func definedInLoop(v ssa.Value, h *ssa.BasicBlock) bool {
 	return false
 }
 
-func runC20Switch(c *Ctx) {
-	n := 0
+// switchDelegation: a call of a function, and — when the call sits in the default
+// clause of a switch over an enum / a geometry-type predicate chain — what that
+// switch already covers. A switch split in two ("the default arm hands the
+// remaining cases to a second function") is exhaustive jointly.
+type switchDelegation struct {
+	inDefault bool
+	kind      string // enum type name, or "chain"
+	covered   map[string]bool
+}
+
+func collectSwitchDelegations(c *Ctx) map[string][]switchDelegation {
+	out := map[string][]switchDelegation{}
 	for _, pkg := range []string{"geom", "rtree", "carto"} {
 		info := c.P.Info(pkg)
 		for _, file := range c.P.Pkgs[pkg].Syntax {
-			var curFunc string
+			var visit func(n ast.Node, ctx *switchDelegation)
+			calleeOf := func(call *ast.CallExpr) string {
+				switch f := call.Fun.(type) {
+				case *ast.Ident:
+					return f.Name
+				case *ast.SelectorExpr:
+					return f.Sel.Name
+				}
+				return ""
+			}
+			visit = func(n ast.Node, ctx *switchDelegation) {
+				ast.Inspect(n, func(node ast.Node) bool {
+					switch x := node.(type) {
+					case *ast.CallExpr:
+						if name := calleeOf(x); name != "" {
+							d := switchDelegation{}
+							if ctx != nil {
+								d = *ctx
+							}
+							out[name] = append(out[name], d)
+						}
+					case *ast.SwitchStmt:
+						if x == n {
+							return true
+						}
+						// classify this switch
+						kind := ""
+						covered := map[string]bool{}
+						if x.Tag != nil {
+							if nt, ok := info.TypeOf(x.Tag).(*types.Named); ok && len(enumConstsCached(nt)) >= 2 {
+								kind = nt.Obj().Name()
+								for _, st := range x.Body.List {
+									for _, e := range st.(*ast.CaseClause).List {
+										if tv, ok := info.Types[e]; ok && tv.Value != nil {
+											covered[tv.Value.ExactString()] = true
+										}
+									}
+								}
+							}
+						} else {
+							kind = "chain"
+							for _, st := range x.Body.List {
+								for _, e := range st.(*ast.CaseClause).List {
+									if call, ok := e.(*ast.CallExpr); ok {
+										if sel, ok := call.Fun.(*ast.SelectorExpr); ok && strings.HasPrefix(sel.Sel.Name, "Is") {
+											covered[strings.TrimPrefix(sel.Sel.Name, "Is")] = true
+										}
+									}
+								}
+							}
+						}
+						if x.Init != nil {
+							visit(x.Init, ctx)
+						}
+						if x.Tag != nil {
+							visit(x.Tag, ctx)
+						}
+						for _, st := range x.Body.List {
+							cc := st.(*ast.CaseClause)
+							for _, e := range cc.List {
+								visit(e, ctx)
+							}
+							for _, b := range cc.Body {
+								if cc.List == nil && kind != "" {
+									visit(b, &switchDelegation{inDefault: true, kind: kind, covered: covered})
+								} else {
+									visit(b, nil)
+								}
+							}
+						}
+						return false
+					}
+					return true
+				})
+			}
+			visit(file, nil)
+		}
+	}
+	return out
+}
+
+// delegatedCover: the cases already handled by every switch whose default clause
+// calls the function named fname — nil unless all calls of fname are of that kind.
+func delegatedCover(dels map[string][]switchDelegation, fname, kind string) map[string]bool {
+	ds := dels[fname]
+	if len(ds) == 0 {
+		return nil
+	}
+	var inter map[string]bool
+	for _, d := range ds {
+		if !d.inDefault || d.kind != kind {
+			return nil
+		}
+		if inter == nil {
+			inter = map[string]bool{}
+			for k := range d.covered {
+				inter[k] = true
+			}
+			continue
+		}
+		for k := range inter {
+			if !d.covered[k] {
+				delete(inter, k)
+			}
+		}
+	}
+	return inter
+}
+
+func runC20Switch(c *Ctx) {
+	n := 0
+	dels := collectSwitchDelegations(c)
+	for _, pkg := range []string{"geom", "rtree", "carto"} {
+		info := c.P.Info(pkg)
+		for _, file := range c.P.Pkgs[pkg].Syntax {
+			var curFunc, curName string
 			ast.Inspect(file, func(node ast.Node) bool {
 				if fd, ok := node.(*ast.FuncDecl); ok {
+					curName = fd.Name.Name
 					curFunc = pkg + "." + fd.Name.Name
 					if fd.Recv != nil && len(fd.Recv.List) > 0 {
 						if t := info.TypeOf(fd.Recv.List[0].Type); t != nil {
@@ -299,6 +425,13 @@ func runC20Switch(c *Ctx) {
 							}
 						}
 					}
+					joint := ""
+					if dc := delegatedCover(dels, curName, nt.Obj().Name()); dc != nil {
+						for k := range dc {
+							covered[k] = true
+						}
+						joint = " (jointly with the switch whose default clause delegates here)"
+					}
 					var missing []string
 					seenVal := map[string]bool{}
 					for _, k := range consts {
@@ -314,7 +447,7 @@ func runC20Switch(c *Ctx) {
 					construct := "switch on " + nt.Obj().Name()
 					switch {
 					case len(missing) == 0:
-						c.OK(sw.Pos(), curFunc, construct, fmt.Sprintf("all %d constants have a case", len(seenVal)))
+						c.OK(sw.Pos(), curFunc, construct, fmt.Sprintf("all %d constants have a case%s", len(seenVal), joint))
 					case def == nil:
 						c.Triv(sw.Pos(), curFunc, construct, "partial switch without default: the remaining constants are deliberately no-ops")
 					case !clausePanics(def, info):
@@ -366,6 +499,13 @@ func runC20Switch(c *Ctx) {
 					return true
 				}
 				n++
+				joint := ""
+				if dc := delegatedCover(dels, curName, "chain"); dc != nil {
+					for k := range dc {
+						preds[k] = true
+					}
+					joint = " (jointly with the chain whose default clause delegates here)"
+				}
 				var missing []string
 				for _, tn := range []string{"GeometryCollection", "Point", "LineString", "Polygon", "MultiPoint", "MultiLineString", "MultiPolygon"} {
 					if !preds[tn] {
@@ -375,7 +515,7 @@ func runC20Switch(c *Ctx) {
 				construct := "predicate chain on the geometry type of " + recv
 				switch {
 				case len(missing) == 0:
-					c.OK(sw.Pos(), curFunc, construct, "all 7 geometry types handled")
+					c.OK(sw.Pos(), curFunc, construct, "all 7 geometry types handled"+joint)
 				case def == nil:
 					c.Triv(sw.Pos(), curFunc, construct, "partial chain without default (ordered dispatch; remaining types handled elsewhere)")
 				case !clausePanics(def, info):
